@@ -700,8 +700,11 @@ def report_t3(rep, module, proved, results, what_corr, violation_kinds=None):
             if len(rep.violations) >= 5:
                 break
     if not proved and not found:
-        rep.violation("proof obligations of %s no longer check: %s" % (module, rep.notes.get("broken_obligations") or rep.notes.get("open_assumptions")),
-                      {"kind": "proof-obligation", "theorem_or_correspondence": module + " / " + what_corr, "detail": rep.notes.get("broken_obligations") or rep.notes.get("open_assumptions")}, nofail=True)
+        cc = rep.notes.get("call_cone_changes")
+        rep.violation("proof obligations of %s no longer check: %s%s" % (module, rep.notes.get("broken_obligations") or rep.notes.get("open_assumptions"),
+                                                                        ("; call cones changed: %s" % cc) if cc else ""),
+                      {"kind": "proof-obligation", "theorem_or_correspondence": module + " / " + what_corr, "detail": rep.notes.get("broken_obligations") or rep.notes.get("open_assumptions"),
+                       "call_cone_changes": cc}, nofail=True)
     return found
 
 
